@@ -382,7 +382,28 @@ def rule_absent(ctx, f):
             if first_call is not None:
                 # Err arm of that read constructs MissingEntry
                 errs = set()
-                for r in cfg.reachable_from(first_call["target"]):
+                d = first_call["dest"][0] if first_call.get("dest") else None
+                region = None
+                tb = b["blocks"][first_call["target"]]
+                # (a) `match read { Ok(v) => v, Err(_) => return Err(MissingEntry {..}) }`: the Err arm of the test of this very result
+                if tb["term"]["k"] == "switch" and any(s[0] == "assign" and s[1] == [F.op_local(tb["term"]["discr"])] and s[2][0] == "discr" and s[2][1] == [d] for s in tb["stmts"]):
+                    a2 = {a[0]: a[1] for a in tb["term"]["arms"]}
+                    ok_t, err_t = a2.get(0, tb["term"]["otherwise"]), a2.get(1, tb["term"]["otherwise"])
+                    if ok_t != err_t:
+                        region = cfg.reachable_from(err_t, avoid={ok_t}) | {err_t}
+                # (b) `read.map_err(|_| MissingEntry {..})?`: the closure handed to map_err on this very result
+                elif tb["term"]["k"] == "call" and last_seg(F.callee_name(tb["term"])) == "map_err" and F.op_local(tb["term"]["args"][0]) == d:
+                    region = set()
+                    cl = arg_local(tb["term"], 1)
+                    for a in fl.origins(cl) if cl is not None else []:
+                        if a[0] == "agg" and a[1].get("k") == "closure":
+                            cb = f.body(a[1]["closure"])
+                            for i3, j3, s3 in (F.stmts(cb) if cb is not None else []):
+                                if s3[0] == "assign" and s3[2][0] == "aggregate" and s3[2][1].get("adt") == ERR:
+                                    errs.add(s3[2][1]["variant"])
+                if region is None:
+                    region = cfg.reachable_from(first_call["target"])       # another spelling: anything built after the read
+                for r in region:
                     for s in b["blocks"][r]["stmts"]:
                         if s[0] == "assign" and s[2][0] == "aggregate" and s[2][1].get("adt") == ERR:
                             errs.add(s[2][1]["variant"])
@@ -507,6 +528,10 @@ def rule_required(ctx, f):
                     names = s[2][1]["fields"]
                     if "field" in names:
                         v = F.const_str(s[2][2][names.index("field")])
+                        if not v and F.op_local(s[2][2][names.index("field")]) is not None:
+                            # MissingEntry carries a String: `String::from("Name")`
+                            cs = [a[1]["str"] for a in Flow(b).origins(F.op_local(s[2][2][names.index("field")])) if a[0] == "const" and "str" in a[1]]
+                            v = cs[0] if len(cs) == 1 else None
                         ctx.check(bool(v), "C18-G1", b["id"], "FromPrimitive without constant field name", b["span"],
                                   detail="defaulted field error names /%s" % v)
 
